@@ -564,6 +564,10 @@ pub fn make_module() -> KMap {
             }
         };
 
+        if !iter.is_bidirectional() {
+            return runtime_error!("iterator.next_back: the provided iterator isn't bidirectional");
+        }
+
         let output = match iter_output_to_result(iter.next_back())? {
             None => KValue::Null,
             Some(output) => IteratorOutput::from(output).into(),
